@@ -88,6 +88,11 @@ CHECKS = {
                      "reference / pointer of scalars, objects and object pointers, deref_count 1 and 2 through operator->/operator* layers, tree_type, nested-scope enums, undeclared); each is driven "
                      "through chain templates of length 1-4 and the job's values and booked types are compared with Python and the declarations.",
                 note="signature forms are an enumerated catalogue, values are random; elements by pointer (ATLAS) and by value (CMS)", ref="4/C10"),
+    "C02": dict(cat="exploration", technique="compiler-as-oracle on emitted packages (clang, ASan+UBSan build, uninitialized/shadow diagnostics), runtime identifier monitor on unique_name in the translating process, completeness audit of the output directory; valgrind sample in the thorough tier",
+                text="Every accepted translation of generated and metadata-heavy queries (equal volume on the three backends) is checked for a complete file set, executable entry script and no "
+                     "surviving template directive; the unmodified C++ is compiled, linked and run against the model EDM; every identifier minted during the translation is audited in the rendered "
+                     "text: declared exactly once, before its first use, in a block enclosing all uses.",
+                note="compiled against the model framework shells, not the real AnalysisBase/CMSSW headers; MSan is not used (no instrumented libstdc++): valgrind stands in on a sample", ref="4/C02"),
 }
 
 PENDING_REASON = "check not built yet at this commit (work in progress, see DESIGN.md section 4)"
